@@ -467,7 +467,10 @@ def r01_8(ctx):
     ranges = [n for n in walk(b["body"]) if n.get("k") == "PRange"]
     good = [p_ for p_ in preds if p_[0] == "is_ascii_lowercase" and p_[1]]
     bad = [p_ for p_ in preds if not (p_[0] == "is_ascii_lowercase" and p_[1])]
-    ok = bool(good) and not bad or (not preds and bool(ranges) and "97..=122" in expr_str(b["body"]).replace(" ", ""))
+    txt_b = expr_str(b["body"]).replace(" ", "")
+    negated = any(n.get("k") == "Unary" and n.get("op") == "!" for n in walk(b["body"])) or "=>False" in txt_b
+    # the same test written with the byte range: `!(b'a'..=b'z').contains(c)`, `!matches!(c, b'a'..=b'z')`, `b'a'..=b'z' => false`
+    ok = bool(good) and not bad or (not preds and "97" in txt_b and "122" in txt_b and negated)
     r.ob("third byte: `not an ASCII lower-case letter`", ok, C.mloc(b, (bad or good or [(0, 0, b)])[0][2]),
          "`!c.is_ascii_lowercase()`" if ok else ("the test on the third byte is %s: `on:click`, `on-foo`, `on_x` (not upper case, not lower case) change sides" % [("!" if p_[1] else "") + p_[0] for p_ in preds] if preds else "no recognised test on the third byte"))
     pats = [n for n in walk(b["body"]) if n.get("k") == "PLit" and n.get("lit") == "byte"]
